@@ -12,16 +12,18 @@ criterion, iteration limit.
   T_C13_rollback   `optimize_clamp`: unless it reports an improvement the state is exactly the one before;
                    when it does, the grid quality is strictly smaller
   T_C13_sens       the sensitivity probe gives back the state
-  T_C13_noworse    grid quality after `optimize_clamp` / `optimize` ≤ before
+  T_C13_noworse    grid quality after `optimize_clamp` / `optimize` ≤ before (`_general`: from any state,
+                   relative to the state the first probes leave)
   T_C13_noraise    no `ValueError` leaves `optimize` (rolled back, never half-applied)
   T_C13_fuel       the `while` loop needs at most `max_iterations` rounds
   T_C13_order      the sorted clamp order is a permutation of the probed clamps
-  T_C13_backport   mesh vertices / sketch points after the back-port = final grid points
+  T_C13_backport_mesh / _sketch   mesh vertices / sketch positions after the back-port = final grid points
 -/
 import CBV.Lemmas.C13
 import Mathlib.Data.List.Perm.Basic
 import Mathlib.Order.Basic
 import Mathlib.Algebra.Order.Ring.Int
+import Mathlib.Tactic.IntervalCases
 
 namespace CBV.C13
 
@@ -128,6 +130,20 @@ theorem T_C13_noworse [LinearOrder Q] [LinearOrder S] {cfg : Cfg P Prm} {n : Nat
     ∃ q1, o.gq (optimize cfg o conv maxIter sched st).st.pts = some q1 ∧ q1 ≤ q0 :=
   (optimizeLoop_rest (restLe_preserved hwf o q0) conv maxIter sched maxIter [] [] st ⟨hr, q0, hq, le_refl _⟩).2
 
+/-- **Quality, whole run, from any state.** The state right after `add_clamp` / `add_link` need not be
+    consistent (clamp constructors project the vertex onto the manifold, closer than TOL). If
+    `optimize` completes at least one iteration and nothing is raised, the final grid quality is
+    defined and not larger than the grid quality of the state the first round of sensitivity probes
+    leaves (every clamped vertex on its clamp position, every follower on its link). -/
+theorem T_C13_noworse_general [LinearOrder Q] [LinearOrder S] {cfg : Cfg P Prm} {n : Nat} (hwf : WF cfg n)
+    (o : Oracles P Q) (conv : List (Q × Q) → Bool) (maxIter : Nat) (sched : Nat → IterSched Prm S)
+    (st : St P Prm) (hlen : st.pts.length = n) (hplen : st.prm.length = cfg.clampIdx.length)
+    (hnr : (optimize cfg o conv maxIter sched st).raised = none)
+    (hit : (optimize cfg o conv maxIter sched st).hist ≠ []) :
+    ∃ qn q1, o.gq (probeAll cfg o (sched 0) cfg.clampIdx.zipIdx st).1.pts = some qn ∧
+      o.gq (optimize cfg o conv maxIter sched st).st.pts = some q1 ∧ q1 ≤ qn :=
+  optimizeLoop_noworse_general hwf conv maxIter sched maxIter [] [] st hlen hplen hnr hit
+
 /-- **No exception, never half-applied.** If a defined grid quality implies a defined junction
     quality (every junction's cells are cells of the grid), then from a consistent state with defined
     grid quality no `ValueError` leaves `optimize`: degenerate cells met by the solver or by a probe
@@ -193,6 +209,60 @@ theorem T_C13_backport_mesh (verts pts : List P) (h : verts.length = pts.length)
       have : pts.length ≤ i := by omega
       rw [List.getElem?_eq_none this, List.getElem?_eq_none (by omega)]
 
+/-- **Back-port, sketch.** `SketchOptimizer.backport` = `MappedSketch.update(grid.points)`: when it
+    succeeds (no index out of range) and every point index occurs in some quad (what `MappedSketch`
+    needs anyway to reconstruct `positions`), the sketch's positions afterwards are the grid's final
+    points. -/
+theorem T_C13_backport_sketch (quads : List (List Nat)) (pts : List P) (faces : List (List P))
+    (hu : sketchUpdate quads pts = some faces) (hcover : ∀ i, i < pts.length → i ∈ quads.flatten)
+    (hne : pts ≠ []) : sketchPositions quads faces = some pts := by
+  unfold sketchUpdate at hu
+  obtain ⟨hl, hs⟩ := flatten_mapM (fun iq => pts[iq]?) quads faces hu
+  have hrange : ∀ i ∈ quads.flatten, i < pts.length := by
+    intro i hi
+    obtain ⟨k, hk⟩ := List.getElem?_of_mem hi
+    obtain ⟨b, _, hb⟩ := hs k i hk
+    exact (List.getElem?_eq_some_iff.mp hb).1
+  have hpos : 0 < pts.length := List.length_pos_iff.mpr hne
+  have hlast : pts.length - 1 ∈ quads.flatten := hcover _ (by omega)
+  unfold sketchPositions
+  dsimp only
+  cases hm : quads.flatten.max? with
+  | none => rw [List.max?_eq_none_iff] at hm; rw [hm] at hlast; cases hlast
+  | some mx =>
+      obtain ⟨hmem, hmax⟩ := List.max?_eq_some_iff.mp hm
+      have hmx : mx + 1 = pts.length := by
+        have h1 := hrange mx hmem
+        have h2 := hmax _ hlast
+        omega
+      dsimp only
+      have hval : ∀ i, i < pts.length →
+          (if i ∈ quads.flatten then faces.flatten[List.idxOf i quads.flatten]? else none) = pts[i]? := by
+        intro i hi
+        have hin := hcover i hi
+        rw [if_pos hin]
+        obtain ⟨b, hb1, hb2⟩ := hs _ i (List.getElem?_idxOf hin)
+        rw [hb1, hb2]
+      have hsome : ((List.range (mx + 1)).mapM
+          (fun i => if i ∈ quads.flatten then faces.flatten[List.idxOf i quads.flatten]? else none)).isSome := by
+        apply mapM_option_isSome
+        intro a ha
+        have : a < pts.length := by rw [← hmx]; exact List.mem_range.mp ha
+        rw [hval a this, List.getElem?_eq_getElem this]; rfl
+      obtain ⟨r, hr⟩ := Option.isSome_iff_exists.mp hsome
+      rw [hr]
+      obtain ⟨rl, rs⟩ := mapM_option_spec _ _ r hr
+      congr 1
+      apply List.ext_getElem?
+      intro k
+      by_cases hk : k < pts.length
+      · have hk' : (List.range (mx + 1))[k]? = some k := by
+          rw [List.getElem?_range (by omega)]
+        obtain ⟨b, hb1, hb2⟩ := rs k k hk'
+        rw [hb1, ← hb2, hval k hk]
+      · have h1 : r.length ≤ k := by rw [rl, List.length_range]; omega
+        rw [List.getElem?_eq_none h1, List.getElem?_eq_none (by omega)]
+
 /-! ### non-vacuity: a concrete instance satisfying every hypothesis used above, on which the
 optimiser really moves something, rolls back and skips.
 
@@ -247,7 +317,7 @@ example : WF exCfg 3 ∧ Rest exCfg 3 exSt0 ∧ exO.gq exSt0.pts = some 9 ∧
     (∀ i pts, (exO.gq pts).isSome → (exO.jq i pts).isSome) ∧ ConsAt exCfg exSt0 0 ∧ exCfg.clampIdx[0]? = some 1 :=
   ⟨T_C13_ex_wf, T_C13_ex_rest, by decide, fun _ _ h => h, T_C13_ex_rest.2.2 0, rfl⟩
 
-/-- hypotheses of `T_C13_on_established`: a state that is NOT consistent (vertex 1 at 6, clamp at 5)
+/-- hypotheses of `T_C13_on_established` and `T_C13_noworse_general`: a state that is NOT consistent (vertex 1 at 6, clamp at 5)
     becomes consistent -/
 example : ¬ Consistent exCfg ⟨[0, 6, 15], [5]⟩ ∧
     (optimize exCfg exO exConv 2 exSched ⟨[0, 6, 15], [5]⟩).raised = none ∧
@@ -266,6 +336,17 @@ example : (∀ (j : Nat) (p : Int), exSt0.prm[j]? = some p → 2 ≤ p ∧ p ≤
   · simp [exSched] at he; rcases he with rfl | rfl <;> decide
   · simp only [exSched] at he
     split at he <;> simp at he <;> rcases he with rfl | rfl | rfl <;> decide
+
+/-- hypotheses of `T_C13_backport_sketch`: a 2 x 1 mapped sketch -/
+example : sketchUpdate [[0, 1, 4, 3], [1, 2, 5, 4]] ([10, 11, 12, 13, 14, 15] : List Int)
+      = some [[10, 11, 14, 13], [11, 12, 15, 14]] ∧
+    (∀ i, i < ([10, 11, 12, 13, 14, 15] : List Int).length → i ∈ [[0, 1, 4, 3], [1, 2, 5, 4]].flatten) ∧
+    sketchPositions [[0, 1, 4, 3], [1, 2, 5, 4]] [[10, 11, 14, 13], [11, 12, 15, 14]]
+      = some ([10, 11, 12, 13, 14, 15] : List Int) := by
+  refine ⟨by decide, ?_, by decide⟩
+  intro i hi
+  have : i < 6 := hi
+  interval_cases i <;> decide
 
 /-- hypothesis of `T_C13_backport_mesh` -/
 example : backportMesh [10, 20, 30] [0, 2, 12] = ([0, 2, 12] : List Int) := by decide
